@@ -61,16 +61,22 @@ def run(run: Run, pkg: Package) -> None:
                 tys = types_of(pkg, it, s["target"])
                 frozen = [t for t in tys if t in pkg.classes and pkg.classes[t].frozen_dataclass]
                 ok = not frozen
+                # definite when every possible type of the target is a frozen dataclass
+                ok = True if ok else (False if (tys and all(t in pkg.classes and pkg.classes[t].frozen_dataclass for t in tys)) else None)
                 run.ob("R-FROZEN", fq, key, ok, "attribute store does not target a frozen dataclass instance",
                        f"target {show(s['target'])[:80]} may be an instance of {[short(t) for t in frozen]}" if frozen else
                        f"target types {[short(t) for t in sorted(tys)] or 'not a package dataclass'}",
                        witness=None if ok else f"{show(s['target'])[:60]}.{s.get('attr')} = ... raises FrozenInstanceError",
-                       loc=loc_of(it, ev))
+                       loc=loc_of(it, ev), sound=True)
             ok = not ext
+            if not ok:
+                # the may-alias answer proves absence; a violation needs the alias to be reached through views only
+                dext = sorted(r for r in ef.roots_definite(it, s["target"], own=True) if r[0] in EXTERNAL)
+                ok = False if dext else None
             run.ob("R-EFFECT", fq, key, ok, f"{s['how']} does not write memory reachable from the function's inputs",
                    f"target {show(s['target'])[:100]} may alias {ext}" if ext else f"target {show(s['target'])[:70]} is local/fresh",
                    witness=None if ok else f"{fq}: {key_of(ev)[:100]} modifies {', '.join(f'{a}:{b}' for a, b in ext)}",
-                   loc=loc_of(it, ev))
+                   loc=loc_of(it, ev), sound=True)
         if not sites:
             run.ob("R-EFFECT", fq, "no-mutators", True, "function contains no mutating construct", nontrivial=False, loc=fi.loc())
         check_ambient(run, pkg, it)
@@ -218,7 +224,7 @@ def check_ambient(run: Run, pkg: Package, it: Interp) -> None:
     for ev in it.events:
         if ev.kind == "global":
             run.ob("R-AMBIENT", fq, f"global {ev.data['names']}", False, "no function rebinds module globals", key_of(ev),
-                   witness=f"global {ev.data['names']}", loc=loc_of(it, ev))
+                   witness=f"global {ev.data['names']}", loc=loc_of(it, ev), sound=True)
         if ev.kind != "call":
             continue
         call = ev.data["call"]
@@ -236,14 +242,18 @@ def check_ambient(run: Run, pkg: Package, it: Interp) -> None:
             # explicit per-call options are an accepted alternative
             if not ok and kw(call, "threshold") is not None and (kw(call, "max_line_width") is not None):
                 ok = True
-            run.ob("R-AMBIENT", fq, f"{f.rsplit('.', 1)[1]}: {key_of(ev)[:70]}", ok,
+            if not ok and not setters:
+                okp = False        # the formatter reads numpy's global print options and nothing in the routine sets them
+            else:
+                okp = True if ok else None
+            run.ob("R-AMBIENT", fq, f"{f.rsplit('.', 1)[1]}: {key_of(ev)[:70]}", okp,
                    "array formatting that depends on numpy's print options is preceded by set_printoptions(threshold=inf, linewidth=inf)",
                    "dominating writer found" if ok else "no dominating np.set_printoptions(threshold=np.inf, linewidth=np.inf)",
                    witness=None if ok else "with default print options rows longer than 75 characters wrap and >1000 elements are elided ('...')",
-                   loc=loc_of(it, ev))
+                   loc=loc_of(it, ev), sound=True)
         if f.startswith(NONDET):
             run.ob("R-AMBIENT", fq, f"nondeterminism: {key_of(ev)[:70]}", False, "no random source is used by an analysis", f,
-                   witness=f"{f} makes repeated calls disagree", loc=loc_of(it, ev))
+                   witness=f"{f} makes repeated calls disagree", loc=loc_of(it, ev), sound=not any(x[0] == "call" and x[1] in ("numpy.random.seed", "random.seed", "numpy.random.default_rng", "numpy.random.RandomState") for e_ in it.events for v_ in e_.data.values() if isinstance(v_, tuple) for x in walk(v_)))
         if f in CLOCKS:
             res = ev.data["result"]
             bad = None
@@ -255,7 +265,7 @@ def check_ambient(run: Run, pkg: Package, it: Interp) -> None:
                     bad = e2
             run.ob("R-AMBIENT", fq, f"clock: {key_of(ev)[:70]}", bad is None, "clock readings do not flow into results or files",
                    "only used for logging" if bad is None else f"flows into {key_of(bad)[:80]}",
-                   witness=None if bad is None else "result depends on wall-clock time", loc=loc_of(it, ev))
+                   witness=None if bad is None else "result depends on wall-clock time", loc=loc_of(it, ev), sound=True)
     for lid, li in it.loops.items():
         if li.kind == "for" and li.iter is not None:
             itr = li.iter
@@ -399,7 +409,7 @@ def check_saves(run: Run, pkg: Package, ef: Effects, fi) -> None:
         run.ob("R-SAVE", fq, f"roles {key}", ok, f"{f.lstrip('.')} receives the file path in the path slot and the data in the data slot",
                f"path slot: {show(strip_alloc(path))[:60]} ; data slot: {show(strip_alloc(data))[:60]}",
                witness=None if ok is not False else f"{f}({show(strip_alloc(call[2][0]))[:40]}, {show(strip_alloc(call[2][1]))[:40]}) has its arguments swapped: "
-               "raises TypeError / writes to a file named after the data", loc=loc_of(it, ev))
+               "raises TypeError / writes to a file named after the data", loc=loc_of(it, ev), sound=True)     # the slot types are decided (string-valued vs array-valued terms)
         # primary output: path is one of the function's own path parameters (possibly with a suffix fixed up)
         p0 = strip_alloc(path)
         prim = None
@@ -420,7 +430,7 @@ def check_saves(run: Run, pkg: Package, ef: Effects, fi) -> None:
             later = later_mutation(it, ev, data)
             run.ob("R-SAVE", fq, f"identity {key}", later is None, "side output / writer-only: saved object is not modified afterwards",
                    "no later store" if later is None else f"modified by {key_of(later)[:80]} after being saved",
-                   witness=None if later is None else "file content differs from the final values", loc=loc_of(it, ev))
+                   witness=None if later is None else "file content differs from the final values", loc=loc_of(it, ev), sound=True)
             continue
         if (fq, prim) in SAVE_EXCEPTIONS:
             run.ob("R-SAVE", fq, f"identity {key}", True, f"tabled exception: {SAVE_EXCEPTIONS[(fq, prim)]}", loc=loc_of(it, ev))
@@ -446,7 +456,26 @@ def check_saves(run: Run, pkg: Package, ef: Effects, fi) -> None:
             pass
         later = later_mutation(it, ev, data)
         ok2 = same and later is None
-        run.ob("R-SAVE", fq, f"identity {key}", ok2 if (same or ret_objs) else None,
+        # definite: the saved object is changed in place afterwards, or a return that follows the save hands back another object
+        # built in this function; "not among the returned objects" alone is a form the rule may not know
+        ok2_ = True if ok2 else (False if (later is not None or bad_ret is not None) else None)
+        if ok2_ is None and not same and len(it.returns) >= 1:
+            # the returned value is computed FROM the saved object and is a different quantity (arithmetic difference over the
+            # same constructs, or a reduction of it): the file holds an intermediate / an input, not the result
+            for r in it.returns:
+                if r.seq < ev.seq or r.data["value"] == NONE:
+                    continue
+                for comp_ in components(r.data["value"]):
+                    rv_ = strip_views(comp_)
+                    if rv_ != d0 and any(x == d0 for x in walk(rv_)):
+                        from .common import eqv as _eqv
+                        diff_ = _eqv(strip_alloc(rv_), strip_alloc(d0))
+                        reduced = any(x[0] == "call" and isinstance(x[1], str) and x[1] in (".sum", "numpy.sum", ".mean", "numpy.mean", ".max", ".min", "numpy.linalg.norm", "numpy.trace")
+                                      and any(y == d0 for y in walk(x)) for x in walk(rv_))
+                        if diff_ is False or (diff_ is None and reduced):
+                            ok2_ = False
+                            bad_ret = r
+        run.ob("R-SAVE", fq, f"identity {key}", ok2_ if (same or ret_objs or later is not None or ok2_ is False) else None,
                f"the file requested through '{prim}' holds an object that the call returns, unmodified after the save",
                ("saved object is returned" if same else f"saved {show(strip_alloc(d0))[:70]} is not among the returned objects")
                + ("" if later is None else f"; modified afterwards by {key_of(later)[:70]}"),
@@ -454,7 +483,7 @@ def check_saves(run: Run, pkg: Package, ef: Effects, fi) -> None:
                                          f"{show(strip_alloc((bad_ret or it.returns[0]).data['value']))[:60]}"
                                          + (f" (return at line {bad_ret.lineno})" if bad_ret is not None else "") if not same else
                                          f"object written at line {ev.lineno} is changed at line {later.lineno} before it is returned"),
-               loc=loc_of(it, ev))
+               loc=loc_of(it, ev), sound=True)
 
 
 def later_mutation(it: Interp, save_ev: Event, data: Term) -> Optional[Event]:
